@@ -1,5 +1,5 @@
 (* C14 — constraint violations raise and leave the value unchanged.  Property theorems only. *)
-Require Import RM.Base RM.Gindex RM.Tree RM.Types RM.Spec RM.ModelViews RM.ModelCodec RM.ModelMut RM.ModelStore RM.StoreProofs RM.BasicProofs RM.ModelBasic.
+Require Import RM.Base RM.Gindex RM.Tree RM.Types RM.Spec RM.ModelViews RM.ModelCodec RM.ModelMut RM.ModelStore RM.StoreProofs RM.BasicProofs RM.ModelBasic RM.ReprProofs RM.CtorSound RM.StoreChain.
 Local Open Scope N_scope.
 
 (* a failed command on a top-level view (or a copy) leaves EVERY held view exactly as it was:
@@ -69,3 +69,38 @@ Print Assumptions C14_over_limit.
 Print Assumptions C14_index_out_of_bounds.
 Print Assumptions C14_pop_empty_append_full.
 Print Assumptions C14_invalid_selector.
+
+(* a failed command through a CHILD view, at the bottom of a hook chain of any depth, leaves every held
+   view exactly as it was too: the command's own checks precede the write, and along a valid chain the
+   propagating writes cannot fail *)
+Theorem C14_unchanged_on_chain : forall H src s cm tr cid v lk rest,
+  Chain H s tr -> tr = (cid, v, lk) :: rest -> target cm = cid -> mutating cm = true ->
+  forall e s', run_cmd H src s cm = (Err e, s') -> s' = s.
+Proof.
+  intros H src s cm tr cid v lk rest Hch Htr Ht Hm e s' Hr.
+  destruct (cmd_on_chain H src s cm tr cid v lk rest Hch Htr Ht Hm) as [(e0 & He)|(x & s2 & _ & Hok & _)]; rewrite Hr in *; congruence.
+Qed.
+
+(* construction: whatever a type's constructor accepts denotes a VALID value of the type (canon: an omitted
+   vector argument list / union value stands for the default, a 0/1 integer for a boolean), and the backing
+   built represents exactly that value; arguments denoting no valid value are refused; among arguments
+   that denote themselves the accepted ones are exactly the well-formed ones *)
+Theorem C14_constructor_sound : forall H t v n, wf_ty t = true -> ModelViews.mk H t v = Ok n ->
+  wf t (canon t v) = true /\ Repr H t (canon t v) n.
+Proof. exact mk_sound_repr. Qed.
+
+Theorem C14_constructor_rejects : forall H t v, wf_ty t = true -> wf t (canon t v) = false -> exists e, ModelViews.mk H t v = Err e.
+Proof. exact mk_rejects. Qed.
+
+Theorem C14_constructor_accepts_iff : forall H t v, wf_ty t = true -> canon t v = v ->
+  (wf t v = true <-> exists n, ModelViews.mk H t v = Ok n).
+Proof. exact mk_accepts_iff. Qed.
+
+Theorem C14_valid_denotes_itself : forall t v, wf_ty t = true -> wf t v = true -> canon t v = v.
+Proof. exact canon_wf_id. Qed.
+
+Print Assumptions C14_unchanged_on_chain.
+Print Assumptions C14_constructor_sound.
+Print Assumptions C14_constructor_rejects.
+Print Assumptions C14_constructor_accepts_iff.
+Print Assumptions C14_valid_denotes_itself.
